@@ -47,6 +47,7 @@ type c14Case struct {
 	EarlyTrailer bool     `json:"handler_sets_prefixed_trailer_before_headers"`
 	CloseAtEnd  bool      `json:"close_after_end_of_body"` // the application closes the body after it has seen EOF / an error (defer Body.Close())
 	CloseFails  bool      `json:"inner_close_fails"`
+	HandlerPanics bool    `json:"handler_panics_after_its_writes,omitempty"`
 	Named       bool      `json:"has_test_name"`
 	Chunks      []int     `json:"chunks"`
 }
@@ -222,6 +223,9 @@ func (r *recReadCloser) Close() error {
 	return r.closeErr
 }
 
+// c14PanicValue is what a panicking handler panics with.
+var c14PanicValue = errors.New("scripted handler panic")
+
 type traceSink struct {
 	traces []Trace
 }
@@ -335,6 +339,9 @@ func c14Run(t *testing.T, tape *simrt.Tape, o simwork.Opts) *simwork.Result {
 		cs.End = "close-early"
 		cs.CloseFails = tape.Bool(1, 4, "early-close-fails")
 	}
+	if cs.Side == "server-response" {
+		cs.HandlerPanics = tape.Bool(1, 6, "handler-panics")
+	}
 	res.Faults["end:"+cs.End]++
 	var bounds []int
 	{
@@ -406,6 +413,8 @@ func c14Run(t *testing.T, tape *simrt.Tape, o simwork.Opts) *simwork.Result {
 	}
 	var inner *recReadCloser
 	var appLog []ioRec
+	var seenReqHdr, sentReqHdr http.Header // request headers as the handler saw them / as they arrived
+	var seenReqLen, sentReqLen int64
 	var isRequestSide bool
 	var injectedEnd error
 	switch cs.Side {
@@ -456,12 +465,15 @@ func c14Run(t *testing.T, tape *simrt.Tape, o simwork.Opts) *simwork.Result {
 			inner.closeErr = errors.New("scripted close error")
 		}
 		h := TracingHandler(http.HandlerFunc(func(w http.ResponseWriter, r *http.Request) {
+			seenReqHdr, seenReqLen = r.Header.Clone(), r.ContentLength
 			appLog = consume(r.Body, cs.CloseAfter)
 			w.Header().Set("Content-Type", "application/proto")
 			w.WriteHeader(200)
 		}), sink)
 		rw := &scriptedRW{hdr: http.Header{}, w: simio.NewWriter()}
-		h.ServeHTTP(rw, mkReq(inner, headers))
+		sreq := mkReq(inner, headers)
+		sentReqHdr, sentReqLen = sreq.Header.Clone(), sreq.ContentLength
+		h.ServeHTTP(rw, sreq)
 	case "server-response":
 		rw := &scriptedRW{hdr: http.Header{}, w: simio.NewWriter()}
 		failing := endKind == simio.EndError || endKind == simio.EndErrorWithData
@@ -473,6 +485,7 @@ func c14Run(t *testing.T, tape *simrt.Tape, o simwork.Opts) *simwork.Result {
 		var handlerLog []ioRec
 		wantHdr := http.Header{}
 		h := TracingHandler(http.HandlerFunc(func(w http.ResponseWriter, r *http.Request) {
+			seenReqHdr, seenReqLen = r.Header.Clone(), r.ContentLength
 			_, _ = io.Copy(io.Discard, r.Body)
 			for k, v := range headers {
 				w.Header()[k] = v
@@ -553,8 +566,26 @@ func c14Run(t *testing.T, tape *simrt.Tape, o simwork.Opts) *simwork.Result {
 			}
 			w.Header().Set("X-Declared", "d1")
 			w.Header().Set(http.TrailerPrefix+"X-Late", "l1")
+			if cs.HandlerPanics {
+				panic(c14PanicValue)
+			}
 		}), sink)
-		h.ServeHTTP(rw, mkReq(io.NopCloser(bytes.NewReader(nil)), http.Header{"Content-Type": {"application/proto"}}))
+		sreq := mkReq(io.NopCloser(bytes.NewReader(nil)), http.Header{"Content-Type": {"application/proto"}})
+		sentReqHdr, sentReqLen = sreq.Header.Clone(), sreq.ContentLength
+		func() {
+			defer func() {
+				p := recover()
+				if cs.HandlerPanics {
+					res.Probes["handler-panics"]++
+					if p != any(c14PanicValue) {
+						viol("c14/panic-not-propagated", "the handler panicked with %v, the caller of the traced handler recovered %v", c14PanicValue, p)
+					}
+				} else if p != nil {
+					panic(p)
+				}
+			}()
+			h.ServeHTTP(rw, sreq)
+		}()
 		// transparency of the writer
 		if len(handlerLog) != len(rw.log) {
 			viol("c14/writer-transparency", "handler made %d writes, inner writer saw %d", len(handlerLog), len(rw.log))
@@ -580,6 +611,10 @@ func c14Run(t *testing.T, tape *simrt.Tape, o simwork.Opts) *simwork.Result {
 			if !rw.w.Failed {
 				injectedEnd = nil // the body was completely written before the failure offset
 			}
+		}
+		if cs.HandlerPanics && !(failing && rw.w.Failed) {
+			// the response did not end, it was abandoned
+			injectedEnd = fmt.Errorf("panic: %v", c14PanicValue)
 		}
 	}
 	if inner != nil {
@@ -632,6 +667,13 @@ func c14Run(t *testing.T, tape *simrt.Tape, o simwork.Opts) *simwork.Result {
 	}
 	if len(cs.Chunks) > 16 {
 		cs.Chunks = cs.Chunks[:16]
+	}
+
+	if sentReqHdr != nil {
+		// what the wrapped handler sees of the request is what arrived
+		if !reflect.DeepEqual(seenReqHdr, sentReqHdr) || seenReqLen != sentReqLen {
+			viol("c14/request-headers-altered", "the handler saw request headers %v (ContentLength %d), the request arrived with %v (ContentLength %d)", seenReqHdr, seenReqLen, sentReqHdr, sentReqLen)
+		}
 	}
 
 	// ---- the trace
